@@ -2437,11 +2437,16 @@ namespace bloch::runtime {
                 return v;  // empty, default as int[] when untyped
             }
             Value first = eval(arr->elements[0].get());
+            // The first element has been evaluated to find the array kind: the element loops take
+            // that value. Evaluating it again would repeat its side effects (a call, a measure).
+            auto valueOf = [&](const std::unique_ptr<Expression>& el) -> Value {
+                return &el == &arr->elements.front() ? first : eval(el.get());
+            };
             switch (first.type) {
                 case Value::Type::Bit:
                     v.type = Value::Type::BitArray;
                     for (auto& el : arr->elements) {
-                        Value ev = eval(el.get());
+                        Value ev = valueOf(el);
                         if (ev.type != Value::Type::Bit)
                             throw BlochError(ErrorCategory::Runtime, el->line, el->column,
                                              "inconsistent element types in array literal");
@@ -2451,7 +2456,7 @@ namespace bloch::runtime {
                 case Value::Type::Boolean:
                     v.type = Value::Type::BooleanArray;
                     for (auto& el : arr->elements) {
-                        Value ev = eval(el.get());
+                        Value ev = valueOf(el);
                         if (ev.type != Value::Type::Boolean)
                             throw BlochError(ErrorCategory::Runtime, el->line, el->column,
                                              "inconsistent element types in array literal");
@@ -2461,7 +2466,7 @@ namespace bloch::runtime {
                 case Value::Type::Int:
                     v.type = Value::Type::IntArray;
                     for (auto& el : arr->elements) {
-                        Value ev = eval(el.get());
+                        Value ev = valueOf(el);
                         if (ev.type != Value::Type::Int && ev.type != Value::Type::Bit)
                             throw BlochError(ErrorCategory::Runtime, el->line, el->column,
                                              "inconsistent element types in array literal");
@@ -2472,7 +2477,7 @@ namespace bloch::runtime {
                 case Value::Type::Long:
                     v.type = Value::Type::LongArray;
                     for (auto& el : arr->elements) {
-                        Value ev = eval(el.get());
+                        Value ev = valueOf(el);
                         if (ev.type != Value::Type::Long && ev.type != Value::Type::Int &&
                             ev.type != Value::Type::Bit)
                             throw BlochError(ErrorCategory::Runtime, el->line, el->column,
@@ -2488,7 +2493,7 @@ namespace bloch::runtime {
                 case Value::Type::Float:
                     v.type = Value::Type::FloatArray;
                     for (auto& el : arr->elements) {
-                        Value ev = eval(el.get());
+                        Value ev = valueOf(el);
                         if (ev.type != Value::Type::Float && ev.type != Value::Type::Int &&
                             ev.type != Value::Type::Long && ev.type != Value::Type::Bit)
                             throw BlochError(ErrorCategory::Runtime, el->line, el->column,
@@ -2506,7 +2511,7 @@ namespace bloch::runtime {
                 case Value::Type::String:
                     v.type = Value::Type::StringArray;
                     for (auto& el : arr->elements) {
-                        Value ev = eval(el.get());
+                        Value ev = valueOf(el);
                         if (ev.type != Value::Type::String)
                             throw BlochError(ErrorCategory::Runtime, el->line, el->column,
                                              "inconsistent element types in array literal");
@@ -2516,7 +2521,7 @@ namespace bloch::runtime {
                 case Value::Type::Char:
                     v.type = Value::Type::CharArray;
                     for (auto& el : arr->elements) {
-                        Value ev = eval(el.get());
+                        Value ev = valueOf(el);
                         if (ev.type != Value::Type::Char)
                             throw BlochError(ErrorCategory::Runtime, el->line, el->column,
                                              "inconsistent element types in array literal");
